@@ -23,7 +23,7 @@ from c01 import (HarnessError, const_v, d_attr, d_items, d_rawflip, flip_v, l_ad
                  l_perm, l_set, r_append, r_flipbit, r_trunc, r_xor, raw, realise, sub, top)
 from common import Coverage, Driver, violation
 from ref import accessory as R
-from ref.accessory import (T_ENC, T_ERROR, T_ID, T_PK, T_PROOF, T_SALT, T_SIG, T_STATE, SetupAccessory, Universe,
+from ref.accessory import (T_ENC, T_ERROR, T_ID, T_PK, T_PROOF, T_SALT, T_SIG, T_STATE, SetupAccessory, Universe, V,
                            lit, msg, reply_term)
 from ref.tlv8 import ref_decode, ref_encode
 
@@ -70,7 +70,8 @@ def fixed_randomness(U: Universe, a_int=None):
 
 class Scn:
     def __init__(self, family, transport, cfg=0, acc=None, m2=(), m4=(), m6=(), honest=False, detail="", with_auth=True,
-                 srp=None, pre=(), ios_id=None):
+                 srp=None, pre=(), ios_id=None, frames=None):
+        self.frames = dict(frames or {})   # BLE only: which reply ("m2"/"m4"/"m6") -> framing (see build_frames)
         self.family, self.transport, self.cfg, self.acc = family, transport, cfg, acc or {}
         self.pre = list(pre)           # complete pairings run first, in the same process (setup sequences)
         self.srp = srp                 # (client secret a, server secret b) pinned by the directed search, or None
@@ -121,12 +122,19 @@ def new_state(s: Scn) -> State:
     st.gen = None
     st.A = None
     st.transport, st.with_auth = s.transport, s.with_auth
+    st.frames = dict(s.frames)
+    st.gatt = {}                      # which -> the GATT frames (hex) the reply was delivered in
+    st.reasm_diff = None
+    if st.frames and s.transport != "ble":
+        raise HarnessError("framed replies exist on BLE only")
     return st
 
 
-def deliver(st: State, gen, which, ops, out, expected):
+def deliver(st: State, gen, which, ops, out, expected, request=None):
     """mutate the accessory's reply, run it through the transport's decoder, hand it to the generator"""
     raw_b, sym = realise(ops, out, st.ctx, None if st.transport == "ble" else [int(x) for x in expected])
+    if st.frames.get(which) is not None:
+        return deliver_framed(st, gen, which, ops, sym, st.frames[which], request)
     st.bytes[which] = raw_b
     if sym is None:
         st.not_tlv = st.not_tlv or which
@@ -137,6 +145,139 @@ def deliver(st: State, gen, which, ops, out, expected):
     if ops:
         st.mutated.add(which)
     dec = H.decode_for(st.transport, raw_b, expected)
+    return gen.send(dec)
+
+
+# ---- BLE: one reply = several GATT frames (the REAL _pairing_char_write reassembles them) -------------------------
+T_FRAG_DATA, T_FRAG_LAST = 12, 13
+PS_TYPES = (T_STATE, T_ERROR, T_SALT, T_PK, T_PROOF, T_ENC)
+
+
+class LinkStarved(Exception):
+    """the controller asked for another frame after the accessory had completed its reply"""
+
+
+def build_frames(U, items, fr):
+    """items = the (mutated) reply as [(type, V)]; fr = dict(n, nsib, sibframe, cut, end, after):
+    the first nsib items travel NEXT TO the fragment items (sibling i in frame sibframe[i]), the remaining items are
+    encoded and cut into the payloads of the fragment items: cut = 'items' (at item boundaries), 'bytes' (evenly,
+    anywhere) or a tuple of byte offsets; end = 'last' (frame n-1 carries FragmentLast) or 'plain' (frames 0..n-2
+    carry FragmentData, frame n-1 carries no fragment item: unterminated buffer); after = siblings behind the
+    fragment item.  Returns (frames as bytes, frames as symbolic item lists).
+    For cuts that are not at item boundaries the SYMBOLIC frames carry the whole payload in the first fragment and
+    empty payloads after it: theorem ble_frames_cut_irrelevant (same siblings and continue/complete decision per frame,
+    same concatenated payload => same reply)."""
+    n, nsib, cut, end = fr["n"], fr["nsib"], fr["cut"], fr["end"]
+    sibs, body = list(items[:nsib]), list(items[nsib:])
+    nfrag = n if end == "last" else n - 1
+    if nfrag == 0 and body:
+        raise HarnessError("framing without fragment item but with a payload")
+    body_b = ref_encode([(t, v.b) for t, v in body])
+    if cut == "items":
+        groups = [[] for _ in range(nfrag)]
+        for i, it in enumerate(body):
+            groups[min(nfrag - 1, i * nfrag // max(1, len(body)))].append(it)
+        pieces = [U.tlv(g) if g else V(b"", ()) for g in groups]
+    else:
+        if cut == "bytes":
+            offs = [len(body_b) * j // nfrag for j in range(1, nfrag)]
+        else:
+            offs = [min(len(body_b), int(o)) for o in cut]
+            if len(offs) != nfrag - 1 or offs != sorted(offs):
+                raise HarnessError(f"bad cut {cut} for {nfrag} fragments")
+        bounds = [0] + offs + [len(body_b)]
+        whole = U.tlv(body) if body else V(b"", ())
+        pieces = [V(body_b[bounds[j]:bounds[j + 1]], whole.t if j == 0 else ()) for j in range(nfrag)]
+    frames_b, frames_sym = [], []
+    for j in range(n):
+        sj = [sibs[i] for i in range(nsib) if fr["sibframe"][i] == j]
+        frag = []
+        if j < nfrag:
+            frag = [(T_FRAG_LAST if (end == "last" and j == n - 1) else T_FRAG_DATA, pieces[j])]
+        f_items = (frag + sj) if fr.get("after") else (sj + frag)
+        frames_sym.append(f_items)
+        frames_b.append(ref_encode([(t, v.b) for t, v in f_items]))
+    return frames_b, frames_sym
+
+
+def ble_logical(frames_b):
+    """the reassembly rule, stated on bytes and independently of the code: every item of every frame the accessory sent
+    counts.  Reply = siblings (items other than 12/13) of all frames up to the completing one, in order, followed by
+    the items of the concatenated fragment payloads; as a mapping the last value of a type wins.
+    Returns (items with one entry per type | None if the payload is not TLV8, number of frames consumed)."""
+    sibs, buf, used = [], b"", 0
+    for fb in frames_b:
+        used += 1
+        items = ref_decode(fb)
+        if items is None:
+            return None, used
+        d = dict(items)
+        sibs += [(t, v) for t, v in items if t not in (T_FRAG_DATA, T_FRAG_LAST)]
+        if T_FRAG_LAST in d:
+            buf += d[T_FRAG_LAST]
+            break
+        if T_FRAG_DATA in d:
+            buf += d[T_FRAG_DATA]
+            continue
+        break
+    body = ref_decode(buf)
+    if body is None:
+        return None, used
+    seq = sibs + body
+    last = {t: i for i, (t, _) in enumerate(seq)}
+    return [(t, v) for i, (t, v) in enumerate(seq) if last[t] == i], used
+
+
+def run_pairing_char_write(frames_b, request):
+    """the real aiohomekit.controller.ble.client._pairing_char_write over a scripted GATT characteristic: the first
+    write is the request, every further write must be the empty-FragmentData acknowledgement"""
+    import aiohomekit.controller.ble.client as bc
+    pending, writes = list(frames_b), []
+
+    class Client:
+        address = "AA:BB:CC:DD:EE:FF"
+
+    async def fake_char_write(client, ek, dk, handle, iid, body):
+        body = bytes(body)
+        writes.append(body)
+        if len(writes) > 1 and body != bytes([T_FRAG_DATA, 0]):
+            raise HarnessError(f"write {len(writes)} during reassembly is not the fragment acknowledgement: {body.hex()}")
+        if not pending:
+            raise LinkStarved("no further frame")
+        return pending.pop(0)
+
+    saved = bc.char_write
+    bc.char_write = fake_char_write
+    try:
+        coro = bc._pairing_char_write(Client(), object(), 1, request)
+        try:
+            coro.send(None)
+        except StopIteration as e:
+            return e.value, len(frames_b) - len(pending)
+        coro.close()
+        raise HarnessError("_pairing_char_write suspended on something else than char_write")
+    finally:
+        bc.char_write = saved
+
+
+def deliver_framed(st: State, gen, which, ops, sym, fr, request):
+    if sym is None or any(o[0] == "raw" for o in ops) or request is None:
+        raise HarnessError("framed delivery needs an item-level reply and the controller's request")
+    items = [(t, st.U.abstract_int(v) if (which == "m4" and t == T_PROOF) else v) for t, v in sym]
+    frames_b, frames_sym = build_frames(st.U, items, fr)
+    logical, used = ble_logical(frames_b)
+    if logical is None or used != len(frames_b):
+        raise HarnessError("generated framing is not exact")
+    st.bytes[which] = ref_encode(logical)        # what the oracle judges: the reply AS SENT, all frames counted
+    st.gatt[which] = [f.hex() for f in frames_b]
+    st.sym[which] = "F:" + "/".join(reply_term(f) for f in frames_sym)
+    st.mutated.add(which)
+    dec, consumed = run_pairing_char_write(frames_b, request)
+    want = {t: v for t, v in logical if t in PS_TYPES}
+    got = {int(t): bytes(v) for t, v in dict(dec).items() if int(t) in PS_TYPES}
+    if got != want or consumed != used:
+        st.reasm_diff = dict(message=which, frames=st.gatt[which], frames_read=consumed,
+                             expected={t: v.hex() for t, v in want.items()}, got={t: v.hex() for t, v in got.items()})
     return gen.send(dec)
 
 
@@ -151,7 +292,7 @@ def step_to_m4(st: State, m2_ops):
     st.m1_ok = ref_decode(st.bytes["m1"]) == want_m1
     out2 = st.acc.on_m1(st.bytes["m1"])
     try:
-        deliver(st, g1, "m2", m2_ops, out2, exp)
+        deliver(st, g1, "m2", m2_ops, out2, exp, req)
         raise HarnessError("part 1 yielded a second request")
     except StopIteration as e:
         salt, pk = e.value
@@ -167,7 +308,7 @@ def step_to_m4(st: State, m2_ops):
     except Exception as e:  # noqa: BLE001
         st.exc = "m3:" + type(e).__name__
         return False
-    st.gen, st.exp4 = g2, exp4
+    st.gen, st.exp4, st.req3 = g2, exp4, req3
     st.exp_lists.append([int(x) for x in exp4])
     st.bytes["m3"] = ref_encode([(int(t), bytes(v)) for t, v in req3])
     d3 = dict(ref_decode(st.bytes["m3"]))
@@ -178,7 +319,7 @@ def step_to_m4(st: State, m2_ops):
 
 def step_to_m6(st: State, m4_ops):
     try:
-        req5, exp6 = deliver(st, st.gen, "m4", m4_ops, st.out4, st.exp4)
+        req5, exp6 = deliver(st, st.gen, "m4", m4_ops, st.out4, st.exp4, st.req3)
     except StopIteration:
         raise HarnessError("part 2 returned at M4")
     except HarnessError:
@@ -186,7 +327,7 @@ def step_to_m6(st: State, m4_ops):
     except Exception as e:  # noqa: BLE001
         st.exc = "m4:" + type(e).__name__
         return False
-    st.exp6 = exp6
+    st.exp6, st.req5 = exp6, req5
     st.exp_lists.append([int(x) for x in exp6])
     st.bytes["m5"] = ref_encode([(int(t), bytes(v)) for t, v in req5])
     st.m5_ok, st.out6 = st.acc.on_m5(st.bytes["m5"])
@@ -195,7 +336,7 @@ def step_to_m6(st: State, m4_ops):
 
 def step_finish(st: State, m6_ops):
     try:
-        deliver(st, st.gen, "m6", m6_ops, st.out6, st.exp6)
+        deliver(st, st.gen, "m6", m6_ops, st.out6, st.exp6, st.req5)
         raise HarnessError("part 2 yielded a fourth request")
     except StopIteration as e:
         st.result = "done"
@@ -239,7 +380,8 @@ def summarise(s: Scn, st: State) -> dict:
                code=st.code.decode(), ios_id=st.ios_id.decode(), with_auth=st.with_auth,
                exp_lists=getattr(st, "exp_lists", []), m1_ok=getattr(st, "m1_ok", None), a_int=hex(st.a_int),
                b_int=hex(st.acc.b),
-               mutated=sorted(getattr(st, "mutated", set())), not_tlv=st.not_tlv)
+               mutated=sorted(getattr(st, "mutated", set())), not_tlv=st.not_tlv,
+               gatt=dict(st.gatt), reasm_diff=st.reasm_diff, framing={k: dict(v) for k, v in st.frames.items()})
     # ---- model request
     a = st.acc_cfg
     if st.sym["m2"] is None:
@@ -978,11 +1120,115 @@ def gen_scenarios(tier, rnd, lz=None):
         # identifier bit flips (validly re-signed would be accepted; here the signature stays) on another identity set
         for i in range(len(CFGS[1][2])):
             S.append(Scn("m6:sub:id:flipbit", tr, 1, m6=[sub(d_items(l_set(T_ID, flip_v(i, 0))), "idflip")], detail=f"id{i}"))
+    S += gen_ble_frames(tier)
     return S
 
 
 # ---- run ----------------------------------------------------------------------
 # ------------------------------------------------------------------ extraction cross-check (vm_compute)
+def FR(n, nsib=0, sibframe=(), cut="items", end="last", after=False):
+    return dict(n=n, nsib=nsib, sibframe=tuple(sibframe), cut=cut, end=end, after=after)
+
+
+def fr_label(fr):
+    cut = fr["cut"] if isinstance(fr["cut"], str) else "at" + "-".join(str(x) for x in fr["cut"])
+    return (f"n{fr['n']}:sib{'.'.join(str(x) for x in fr['sibframe']) or '-'}:{cut}:{fr['end']}:"
+            f"{'after' if fr['after'] else 'before'}")
+
+
+def gen_ble_frames(tier):
+    """BLE: replies delivered as several GATT frames through the REAL _pairing_char_write.  Dimensions: which reply,
+    number of frames, which frame carries a sibling item (first / middle / final), sibling before or after the
+    fragment item, where the payload is cut (item boundaries, arbitrary bytes, inside a TLV header, empty pieces,
+    255/256), how the reply ends (FragmentLast / unterminated), and what the siblings are (the reply's own State,
+    an Error item, a wrong State, required fields)."""
+    S = []
+    full = tier == "thorough"
+    ERR = lambda code=2: top(l_add(0, T_ERROR, bytes([code])), f"err{code}")  # noqa: E731
+    honest_state = {"m2": b"\x02", "m4": b"\x04", "m6": b"\x06"}
+    nitems = {"m2": 3, "m4": 2, "m6": 2}
+
+    def add(fam, which, ops, fr, honest=False, cfg=0, acc=None, extra=None):
+        kw = {which: ops}
+        frames = {which: fr}
+        frames.update(extra or {})
+        S.append(Scn("ble-frames:" + which + ":" + fam, "ble", cfg, acc=acc, honest=honest, frames=frames,
+                     detail="+".join(o[2] for o in ops) + "|" + "|".join(f"{k}:{fr_label(v)}" for k, v in sorted(frames.items())),
+                     **kw))
+
+    ns = (2, 3, 4, 7, 50) if full else (2, 3, 5)
+    for which in ("m2", "m4", "m6"):
+        # -- honest content, only the framing varies: must pair
+        for n in ns:
+            for cut in ("items", "bytes"):
+                add("honest:fragmented", which, [], FR(n, cut=cut), honest=True)
+            add("honest:unterminated", which, [], FR(n, end="plain", cut="bytes"), honest=True)
+            for j in sorted({0, n // 2, n - 1}):
+                for after in (False, True):
+                    add("honest:state-as-sibling", which, [], FR(n, 1, (j,), cut="bytes", after=after), honest=True)
+            add("honest:state-as-sibling:unterminated", which, [], FR(n, 1, (n - 1,), cut="bytes", end="plain"), honest=True)
+        add("honest:single-fragment-last", which, [], FR(1), honest=True)
+        add("honest:all-items-siblings:empty-last", which, [], FR(1, nitems[which], (0,) * nitems[which]), honest=True)
+        add("honest:all-items-siblings:plain", which, [], FR(1, nitems[which], (0,) * nitems[which], end="plain"), honest=True)
+        add("honest:all-items-siblings:spread", which, [], FR(nitems[which], nitems[which], tuple(range(nitems[which]))),
+            honest=True)
+        for cut in ((1,), (2,), (3,), (4,), (5,), (0,), (1, 1), (0, 0), (3, 3, 4), (255,), (256,), (257, 258), (9999,)):
+            add("honest:cut", which, [], FR(len(cut) + 1, cut=cut), honest=True)
+        # -- an Error item next to a fragment: in ANY frame it must make pairing fail
+        for n in ns[:3] if not full else ns:
+            for j in sorted({0, 1, n // 2, n - 1}):
+                if j >= n:
+                    continue
+                for after in (False, True):
+                    add("error-sibling", which, [ERR()], FR(n, 1, (j,), cut="bytes", after=after))
+                add("error-sibling:state-sibling-too", which, [ERR()], FR(n, 2, (j, min(n - 1, j + 1)), cut="items"))
+                add("error-sibling:nostate", which, [top(l_drop(T_STATE), "nostate"), ERR()], FR(n, 1, (j,), cut="bytes"))
+            add("error-sibling:unterminated", which, [ERR()], FR(n, 1, (0,), cut="bytes", end="plain"))
+            add("error-sibling:unterminated", which, [ERR()], FR(n, 1, (n - 1,), cut="bytes", end="plain"))
+            add("error-in-payload", which, [top(l_add(-1, T_ERROR, b"\x02"), "err2-end")], FR(n, cut="bytes"))
+        for code in (1, 3, 4, 5, 6, 7, 0):
+            add("error-sibling:code", which, [ERR(code)], FR(2, 1, (0,), cut="bytes"))
+        add("error-sibling:single-frame-last", which, [ERR()], FR(1, 1, (0,)))
+        # -- State items next to a fragment
+        wrong = {"m2": b"\x04", "m4": b"\x02", "m6": b"\x04"}[which]
+        for n in ns[:2]:
+            for j in sorted({0, n - 1}):
+                # the reply's only State item is wrong and travels as a sibling
+                add("wrong-state-sibling", which, [top(l_set(T_STATE, const_v(wrong)), "state=" + wrong.hex())],
+                    FR(n, 1, (j,), cut="bytes"))
+                # wrong State next to a fragment, the right one inside the payload (later item wins, as in a plain reply)
+                add("wrong-state-sibling:right-in-payload", which, [top(l_add(0, T_STATE, wrong), "state+" + wrong.hex())],
+                    FR(n, 1, (j,), cut="bytes"))
+                # right State next to a fragment, a wrong one inside the payload
+                add("right-state-sibling:wrong-in-payload", which,
+                    [top(l_set(T_STATE, const_v(wrong)), "state=" + wrong.hex()), top(l_add(0, T_STATE, honest_state[which]), "state+ok")],
+                    FR(n, 1, (j,), cut="bytes"))
+        # -- required fields
+        req = {"m2": (T_PK, T_SALT), "m4": (T_PROOF,), "m6": (T_ENC,)}[which]
+        for t in req:
+            add("drop-field", which, [top(l_drop(t), f"drop{t}")], FR(2, 1, (0,), cut="bytes"))
+            add("drop-field", which, [top(l_drop(t), f"drop{t}")], FR(3, cut="bytes"))
+    # -- content attacks behind a fragmented transport
+    add("proof-random", "m4", [top(l_set(T_PROOF, const_v(bytes(range(64)))), "random")], FR(2, 1, (0,), cut="bytes"))
+    add("proof-of-other-code", "m4", [], FR(3, cut="bytes"), acc=dict(code=WRONG_CODE, lenient=True))
+    add("wrong-code:honest-error-reply", "m4", [], FR(2, 1, (0,), cut="items"), acc=dict(code=WRONG_CODE))
+    add("wrong-code:honest-error-reply", "m4", [], FR(2, 2, (0, 0)), acc=dict(code=WRONG_CODE))
+    add("wrong-code:honest-error-reply", "m4", [], FR(2, 2, (0, 1)), acc=dict(code=WRONG_CODE))
+    add("wrong-code:honest-error-reply", "m4", [], FR(3, 1, (1,), cut="bytes", end="plain"), acc=dict(code=WRONG_CODE))
+    add("sig-by-other-key", "m6", [sub(d_items(l_set(T_SIG, lambda ctx, v: ctx.U.sign(OTHER_LTSK, lit(b"x")))), "othersig")],
+        FR(3, 1, (0,), cut="bytes"))
+    add("sub-drop-sig", "m6", [sub(d_items(l_drop(T_SIG)), "dropsig")], FR(2, cut="bytes"))
+    # -- every reply of one pairing framed (one object-less process, three reassemblies in a row)
+    for n in (2, 3):
+        add("honest:all-three-replies", "m2", [], FR(n, cut="bytes"), honest=True,
+            extra=dict(m4=FR(n, 1, (0,), cut="bytes"), m6=FR(n + 1, 1, (n,), cut="bytes")))
+        add("honest:all-three-replies", "m2", [], FR(n, cut="bytes"), honest=True, cfg=1,
+            extra=dict(m4=FR(n, 1, (0,), cut="bytes"), m6=FR(n + 1, 1, (n,), cut="bytes")))
+        add("error-sibling:all-three-replies-framed", "m6", [ERR()], FR(n + 1, 1, (0,), cut="bytes"),
+            extra=dict(m2=FR(n, cut="bytes"), m4=FR(n, 1, (0,), cut="bytes")))
+    return S
+
+
 def coq_request(line):
     """one `ps ...` driver request as the Gallina term `show_ps ...` (same arguments, same order as drv_c03.ml);
     the term syntax is the one of drv_c01.ml, rendered by c01.coq_msg / coq_reply / coq_hexbytes"""
@@ -996,11 +1242,24 @@ def coq_request(line):
            f"sa_id := {H.coq_hexbytes(sa_id)}; sa_ltsk := {int(sa_ltsk)}%N |}}")
     rec = "None" if rid == "none" else f"(Some ({H.coq_hexbytes(rid)}, {H.coq_msg(rltpk)}))"
     return (f"(show_ps {dict(ip='TIP', ble='TBLE', coap='TCOAP')[tr]} {c} {'true' if wa == '1' else 'false'} {acc} "
-            f"{H.coq_reply(m2)} {H.coq_reply(m4)} {H.coq_reply(m6)} {rec})")
+            f"{coq_reply_f(m2)} {coq_reply_f(m4)} {coq_reply_f(m6)} {rec})")
+
+
+def coq_reply_f(s):
+    """a reply argument; `F:frame/frame/...` (BLE frames) becomes `bf_reply [frame; ...]` (Model/SetupFrames.v)"""
+    if not s.startswith("F:"):
+        return H.coq_reply(s)
+    frames = []
+    for f in s[2:].split("/"):
+        t = H.coq_reply(f)
+        if not (t.startswith("(Some ") and t.endswith(")")):
+            raise ValueError("frame")
+        frames.append(t[len("(Some "):-1])
+    return "(bf_reply [" + "; ".join(frames) + "])"
 
 
 XC_PRELUDE = """From Coq Require Import List NArith Bool.
-From AHK Require Import Lib.Res Lib.ByteStr Model.Tlv Model.Sym Model.Setup.
+From AHK Require Import Lib.Res Lib.ByteStr Model.Tlv Model.Sym Model.Setup Model.SetupFrames.
 Import ListNotations.
 Fixpoint items_eqb (a b : list sitem) : bool :=
   match a, b with
@@ -1061,7 +1320,7 @@ def xc_sample(pairs, n=24):
         w = req.split(" ")
         if len(w) != 17 or len(req) > 6000:
             continue
-        k = (ans, w[1], w[13] != "honest", w[14] != "honest", w[15] != "none")
+        k = (ans, w[1], w[13] != "honest", w[14] != "honest", w[15] != "none", any(x.startswith("F:") for x in w[12:15]))
         if k not in groups or len(req) < len(groups[k][0]):
             groups[k] = (req, ans)
     picked = []
@@ -1098,6 +1357,27 @@ def vm_crosscheck(ctx, sample):
     return len(blocks), bad
 
 
+def frame_hist(r):
+    """per-dimension histogram keys of the BLE framing of a case (one bucket = a finding about the harness)"""
+    if r["transport"] != "ble":
+        return {}
+    fr = r.get("framing") or {}
+    if not fr:
+        return dict(ble_frames_per_reply="1 (unfragmented)")
+    out = {}
+    which = sorted(fr)[-1] if len(fr) == 1 else "m2+m4+m6"
+    f = fr[sorted(fr)[-1]]
+    n = f["n"]
+    pos = sorted({("first" if j == 0 and n > 1 else "final" if j == n - 1 else "middle") for j in f["sibframe"]})
+    out["ble_framed_reply"] = which
+    out["ble_frames_per_reply"] = str(n)
+    out["ble_sibling_in_frame"] = "+".join(pos) or "none"
+    out["ble_sibling_side"] = ("after" if f["after"] else "before") if f["nsib"] else "-"
+    out["ble_payload_cut"] = f["cut"] if isinstance(f["cut"], str) else "explicit-offsets"
+    out["ble_reply_end"] = f["end"]
+    return out
+
+
 def coarse(model_line):
     parts = dict(x.split("=", 1) for x in model_line.split(" "))
     res, cls = parts["result"], None
@@ -1110,6 +1390,12 @@ def replay_payload(r, model=None):
     return dict(scenario=r["ident"], transport=r["transport"], setup_code=r["code"], ios_pairing_id=r["ios_id"],
                 with_auth=r["with_auth"], srp_client_secret_a=r["a_int"], reference_accessory_srp_secret_b=r["b_int"],
                 controller_ltsk_seed=Universe("c03").edsk(CTRL_LTSK).hex(), messages=r["bytes"],
+                ble_gatt_frames=(r.get("gatt") or None),
+                ble_note=("messages.<mN> of a framed reply is the reply AS SENT with all frames counted (siblings of every "
+                          "frame + reassembled payload, last value per type); ble_gatt_frames.<mN> are the frames to return from "
+                          "aiohomekit.controller.ble.client.char_write, one per write (first write = the request, then the "
+                          "controller's 0c00 acknowledgements), while drive_pairing_state_machine / _pairing_char_write runs"
+                          if r.get("gatt") else None),
                 impl=r["impl"], impl_exception=r["exc"], impl_record=r["record"], model=model,
                 earlier_pairings_in_this_process=r.get("earlier_pairings") or None,
                 oracle_reason=r["why_not"], oracle_record=r["just"],
@@ -1180,8 +1466,10 @@ def run(ctx):
                                       False, scenario=r["ident"], request=r["model_req"]))
         else:
             mcoarse = "result=fail m3acc=- m5acc=-"
-        cov.case("|".join(str(r["bytes"][k]) for k in ("m2", "m4", "m6")) + f"|{s.transport}|{s.cfg}|{sorted(s.acc.items())}",
-                 model_line is not None,
+        fr_h = frame_hist(r)
+        cov.case("|".join(str(r["bytes"][k]) for k in ("m2", "m4", "m6")) + f"|{s.transport}|{s.cfg}|{sorted(s.acc.items())}"
+                 + (f"|{sorted(r['gatt'].items())}" if r.get("gatt") else ""),
+                 model_line is not None, **fr_h,
                  sample=dict(scenario=r["ident"], impl=impl, model=model_line) if s.family in SAMPLE_FAMILIES else None,
                  transport=s.transport, family=":".join(s.family.split(":")[:2]),
                  outcome=("done" if done else "fail:" + str(r["exc"]).split(":")[-1]),
@@ -1221,6 +1509,11 @@ def run(ctx):
             viol.append(violation("model-mismatch:record:" + s.family + ":" + s.transport,
                                   f"returned record / accessory-side state differ from the model on {r['ident']}: "
                                   f"model {model_line}, impl stored={r['stored']} record={r['record']}",
+                                  False, **replay_payload(r, model_line)))
+        if not bad and r.get("reasm_diff"):
+            viol.append(violation("model-mismatch:ble-reassembly:" + s.family,
+                                  f"_pairing_char_write handed the pairing state machine other State/Error/field items than the "
+                                  f"frames carried (or read another number of frames) on {r['ident']}: {r['reasm_diff']}",
                                   False, **replay_payload(r, model_line)))
     # ---- the real discovery / finish_pairing glue over a scripted link
     n_link = 0
